@@ -7,6 +7,7 @@
 
 pub mod flavour;
 pub mod guard;
+pub mod own;
 pub mod tlcio;
 pub mod world;
 
